@@ -46,6 +46,7 @@ def run(scn, seed):
         if scn["handler"] != "absent":
             srv.set_exception_handler(H())
         sock.fail_write_at = scn.get("fail_write_at")
+        sock.fail_write_kind = ["pipe", "reset", "timedout", "unreach", "bare"][(scn.get("fail_write_at") or 0) % 5]
         double_close = {"err": None}
 
         def main():
@@ -116,7 +117,7 @@ def gen(R):
             data = init + "".join(reqs[:k])
         else:
             data = stream
-        scn.update(chunks=[data] if data else [], end=R.choice(["eof", "reset"]), fault=("read", cls))
+        scn.update(chunks=[data] if data else [], end=R.choice(["eof", "reset", "timedout", "unreach", "bare"]), fault=("read", cls))
     elif mode == "write-fault":
         scn.update(chunks=[stream], fail_write_at=R.randrange(1, 9), fault=("write",))
     elif mode == "close":
